@@ -75,6 +75,25 @@ BUILTIN = [
     ("html-leaves-no-file-on-remove-error", ["C20"], "coxeter/io.py",
      "    os.remove(filename)\n",
      "    try:\n        os.remove(filename)\n    except OSError:\n        return\n"),
+    # --- C13 layer 2 (definitional invariants)
+    ("ellipse-bounding-circle-uses-a", ["C13"], "coxeter/shapes/ellipse.py",
+     "        return Circle(max(self.a, self.b), self.centroid)\n",
+     "        return Circle(self.a, self.centroid)\n"),
+    ("ellipsoid-bounded-sphere-forgets-c", ["C13"], "coxeter/shapes/ellipsoid.py",
+     "        return Sphere(min(self.a, self.b, self.c), self.centroid)\n\n    def __repr__",
+     "        return Sphere(min(self.a, self.b), self.centroid)\n\n    def __repr__"),
+    ("centred-bounded-sphere-second-nearest-face", ["C13"], "coxeter/shapes/convex_polyhedron.py",
+     "        min_distance = -np.max(distances)\n",
+     "        min_distance = -np.sort(distances)[-2]\n"),
+    ("incircle-existence-test-skipped-for-quadrilaterals", ["C13"], "coxeter/shapes/polygon.py",
+     "        if len(self.vertices) > 3 and not np.isclose(resids, 0):\n            raise RuntimeError(\"No incircle for this polygon.\")",
+     "        if len(self.vertices) > 4 and not np.isclose(resids, 0):\n            raise RuntimeError(\"No incircle for this polygon.\")"),
+    ("circumcircle-existence-test-removed", ["C13"], "coxeter/shapes/polygon.py",
+     "        if len(self.vertices) > 3 and not np.isclose(resids, 0):\n            raise RuntimeError(\"No circumcircle for this polygon.\")\n",
+     ""),
+    ("form-factor-normalises-stored-normals", ["C16"], "coxeter/shapes/polygon.py",
+     "            norm_normal = np.array(normal, dtype=np.float64)\n",
+     "            norm_normal = np.asarray(normal, dtype=np.float64)\n"),
 ]
 
 
@@ -101,6 +120,7 @@ def run_check(prop, src, tier, extra_env=None):
     env = dict(os.environ)
     env.pop("COXETER_VERIF_PINNED", None)
     env["COXETER_VERIF_SRC"] = src
+    env.setdefault("VERIF_MAX_MINIMISED", "3")  # the matrix needs a verdict, not every replay
     env.update(extra_env or {})
     t0 = time.time()
     p = sh([sys.executable, CHECK, prop, "--tier", tier, "--no-evidence"], env=env, timeout=7200)
